@@ -81,6 +81,8 @@ def dirty_split(prog, fn):
     # flow-insensitive tracing also sees the later `dirty = false` store of the same function as a (constant) origin
     hits = []
     for sw in bool_switches(prog, fn):
+        if sw.get("assert_like"):
+            continue        # `debug_assert!(!self.is_dirty())` is not the gate
         c = sw["cond"]
         if c and any(pred(o) for o in c) and all(pred(o) or (o.kind == "const" and isinstance(o.data, bool)) for o in c):
             hits.append(sw)
